@@ -23,7 +23,7 @@ fn dispatch(req: &Value) -> Result<Value, String> {
         "color_sweep" => tverif::ops_api::color_sweep(req),
         "fmt_rt" => tverif::canon::fmt_rt(req),
         "core_sigs" => tverif::ops_api::core_sigs(req),
-        "fuzz_table" => Ok(json!({"table": tverif::fuzzsup::table_json()})),
+        "fuzz_table" => Ok(json!({"table": tverif::fuzzsup::table_json(), "map_table": tverif::fuzzsup::map_table_json()})),
         op => Err(format!("unknown op {op}")),
     }
 }
